@@ -27,9 +27,9 @@
      memory-safety matter outside the model.
    * C09_type_decode: a complex-type offset is not a multiple of 2^24 (always true for
      typelibs below 16 MiB since offsets are > 0).
-   * C09_deprecated_partial excludes GI_INFO_TYPE_UNION: on unions the unchanged code violates the
-     property (`C09_deprecated_counterexample`; PENDING finding `api:union:deprecated`).  Re-validated
-     against /repo HEAD after the fix: commits (none of them touches gibaseinfo.c).
+   * C09_deprecated: none beyond `kind ≠ GI_INFO_TYPE_INVALID_0` (no info has that type).  Since /repo
+     6a5b079 the switch of g_base_info_is_deprecated has the GI_INFO_TYPE_UNION case; the model reads the
+     case groups from Gen/InfoSwitch.lean (translators/gen_info_switch.py).
    * C09_struct_func_name_partial: for GI_INFO_TYPE_BOXED the stored copy/free string offset is 0
      (girnode.c never writes one for <glib:boxed>; checked per typelib, `boxed_funcs_unset`).  The
      accessors' GI_IS_STRUCT_INFO guard rejects boxed infos, so a hand-made typelib with a non-zero
@@ -384,30 +384,23 @@ theorem C09_type_decode (w : Nat) :
 
 /-! ### deprecation flag -/
 
-/-- the property at full strength: for every info kind the API reads the deprecation bit the format stores -/
-def C09_deprecated_full : Prop :=
-  ∀ kind, kind < 20 → kind ≠ 10 → deprecatedField kind = storedDeprecatedField kind
-
-/-- g_base_info_is_deprecated reads the stored bit for every GIInfoType except GI_INFO_TYPE_UNION (11);
-    kinds without a bit in their blob (vfunc, field, arg, type) report FALSE. (10 = INVALID_0 is not a kind
-    of any info.) -/
-theorem C09_deprecated_partial :
-    ∀ kind, kind < 20 → kind ≠ 10 → kind ≠ 11 → deprecatedField kind = storedDeprecatedField kind := by
+/-- g_base_info_is_deprecated reads, for every GIInfoType, exactly the deprecation bit the typelib format
+    stores for that kind of blob (unions included), and reports FALSE for the kinds whose blob has no such
+    bit (vfunc, field, arg, type).  `deprecatedField` is a lookup in the case groups regenerated from the
+    `switch` of gibaseinfo.c on every run, `storedDeprecatedField` in the measured layout table, so a case
+    label dropped from the switch (or a bit moved in a blob) makes this obligation fail.
+    (10 = GI_INFO_TYPE_INVALID_0 is not the type of any info.) -/
+theorem C09_deprecated :
+    ∀ kind, kind < 20 → kind ≠ 10 → deprecatedField kind = storedDeprecatedField kind := by
   decide +kernel
 
-/-- On the unchanged tree the full statement is false: UnionBlob stores `deprecated` at bit 16 (girnode.c
-    writes it) but the switch in g_base_info_is_deprecated has no GI_INFO_TYPE_UNION case; on the 8 bytes
-    `0b 00 01 00 ...` (blob_type = BLOB_TYPE_UNION, deprecated = 1) the stored bit is 1 and the API says FALSE. -/
-theorem C09_deprecated_counterexample :
-    ¬ C09_deprecated_full
-    ∧ deprecatedField (enumVal "GIInfoType" "GI_INFO_TYPE_UNION") = none
+/-- the union case, spelled out on bytes: on the 8 bytes `0b 00 01 00 ...` (blob_type = BLOB_TYPE_UNION,
+    deprecated = 1) the stored bit is 1 and the API says TRUE; with the bit clear it says FALSE. -/
+theorem C09_deprecated_union :
+    deprecatedField (enumVal "GIInfoType" "GI_INFO_TYPE_UNION") = some (16, 1)
     ∧ storedDeprecatedField (enumVal "GIInfoType" "GI_INFO_TYPE_UNION") = some (16, 1)
-    ∧ getF ⟨#[11, 0, 1, 0, 0, 0, 0, 0]⟩ 0 (16, 1) = 1
-    ∧ isDeprecated (mkCtx ⟨#[11, 0, 1, 0, 0, 0, 0, 0]⟩) 11 0 = false := by
-  refine ⟨?_, by decide +kernel, by decide +kernel, by decide +kernel, by decide +kernel⟩
-  intro h
-  have := h 11 (by omega) (by omega)
-  revert this
+    ∧ isDeprecated (mkCtx ⟨#[11, 0, 1, 0, 0, 0, 0, 0]⟩) 11 0 = true
+    ∧ isDeprecated (mkCtx ⟨#[11, 0, 0, 0, 0, 0, 0, 0]⟩) 11 0 = false := by
   decide +kernel
 
 /-! ### copy / free function of records and boxed types -/
@@ -469,6 +462,8 @@ example : findFirst (fun i => [8, 40, 40, 40, 72].getD i 0) 40 (some 3) = some 1
 example : iterAttributes (fun i => [8, 40, 40, 40, 72].getD i 0) 5 40 (some 2) = [1, 2, 3] := by decide
 example : iterAttributes (fun i => [8, 40, 40, 40, 72].getD i 0) 5 24 none = [] := by decide
 example : BsearchOk (fun i => [8, 40, 40, 40, 72].getD i 0) 5 40 (some 2) := ⟨by omega, by decide⟩
+-- C09_deprecated: a union (kind 11) is in range and reads bit 16 of its blob; a vfunc (14) has no bit
+example : (11 < 20 ∧ 11 ≠ 10) ∧ deprecatedField 11 = some (16, 1) ∧ deprecatedField 14 = none := by decide +kernel
 -- a record with a copy function "a" at string offset 4, and a boxed type storing none
 example : structFuncName (mkCtx ⟨#[0, 0, 0, 0, 97, 0]⟩) (K "GI_INFO_TYPE_STRUCT") 4 = "a" := by decide +kernel
 example : structFuncName (mkCtx ⟨#[0, 0, 0, 0, 97, 0]⟩) (K "GI_INFO_TYPE_BOXED") 0 = optStr ⟨#[0, 0, 0, 0, 97, 0]⟩ 0 := by
